@@ -118,3 +118,18 @@ def native_ghosts(target):
 def close(a, b, rel=1e-9, abs_=1e-9):
     import math
     return math.isclose(float(a), float(b), rel_tol=rel, abs_tol=abs_)
+
+
+def uf_real(name, *args):
+    """Native meaning of the named real functions used in contracts."""
+    import math
+    if name == "pow":
+        return float(args[0]) ** float(args[1])
+    if name == "exp":
+        return math.exp(args[0])
+    if name == "log":
+        return math.log(args[0])
+    if name == "normcdf":
+        import scipy.stats
+        return float(scipy.stats.norm.cdf(args[0], loc=0, scale=args[1]))
+    raise NotImplementedError("uf_real(%s) has no native reading" % name)
